@@ -221,10 +221,19 @@ Definition jail (s : state) (i : nat) : outcome state unit :=
   if negb (v_exists v) then Panic else
   if v_jailed v then Panic else Ok (set_val s i (set_jailed v true)) tt.
 
-Definition unjail (s : state) (i : nat) : outcome state unit :=
+(* Unjail as reached through x/slashing MsgUnjail: its stateful checks on the staking side
+   (validator exists, the operator's self delegation exists and is worth at least
+   MinSelfDelegation, the validator is jailed), then staking Unjail *)
+Definition unjail (e : env) (s : state) (i : nat) : outcome state unit :=
   let v := vals s i in
-  if negb (v_exists v) then Panic else
-  if negb (v_jailed v) then Panic else Ok (set_val s i (set_jailed v false)) tt.
+  if negb (v_exists v) then Err else
+  match del s (oper e i) i with
+  | None => Err
+  | Some d =>
+    if v_shares v =? 0 then Panic else
+    if dec_trunc_int (tokens_from_shares v d) <? v_minself v then Err else
+    if negb (v_jailed v) then Err else Ok (set_val s i (set_jailed v false)) tt
+  end.
 
 (** * end blocker: ApplyAndReturnValidatorSetUpdates (MaxValidators is out of
       reach: a validator is in the set iff it is not jailed and has consensus
